@@ -788,8 +788,19 @@ Proof.
        (match ri_stat y, ri_dial y with SLive, DsFlying => set_ri_aband true y | _, _ => y end))).
   assert (Hf : forall y, ri_dial (f y) = ri_dial y /\ ri_resolved (f y) = ri_resolved y /\ ri_key (f y) = ri_key y)
     by (intros y; unfold f; destruct (ri_stat y) eqn:E1, (ri_dial y) eqn:E2; cbn; auto).
-  destruct (RV_ri_upd_ab f r m Hf) as [ab Hab].
-  destruct (ri_stat x); try (destruct Hid as [ab' Hid]; exists ab'; auto; fail); exists ab; auto.
+  (* the connection-side update that precedes it does not touch the view *)
+  assert (Hpre : forall mi, RV mi = RV m -> NC mi = NC m -> m_keys mi = m_keys m ->
+            exists ab, RV (ri_upd f r mi) = upd_nth r (fun q => mkR3 (ab q) (q_dl q) (q_rs q) (q_key q)) (RV m)
+                       /\ NC (ri_upd f r mi) = NC m /\ m_keys (ri_upd f r mi) = m_keys m).
+  { intros mi E1 E2 E3. destruct (RV_ri_upd_ab f r mi Hf) as [ab Hab]. exists ab. rewrite Hab, E1. auto. }
+  assert (Hci : forall c, RV (ci_upd (set_ci_back (m_i m)) c m) = RV m /\ NC (ci_upd (set_ci_back (m_i m)) c m) = NC m
+                          /\ m_keys (ci_upd (set_ci_back (m_i m)) c m) = m_keys m)
+    by (intros c; split; [reflexivity|split; [apply NC_ci_upd|reflexivity]]).
+  destruct (ri_stat x); try (destruct Hid as [ab' Hid]; exists ab'; auto; fail).
+  - destruct (ri_popx x) as [c|]; [|apply Hpre; reflexivity].
+    destruct (nth_error (m_conns m) c) as [y|]; [|apply Hpre; reflexivity].
+    destruct (ci_share y); [apply Hpre; reflexivity|]. destruct (Hci c) as (A & B & C). apply Hpre; assumption.
+  - apply Hpre; reflexivity.
 Qed.
 
 
@@ -1321,7 +1332,8 @@ Proof.
   - intros m' e E. rewrite mprev_track_ev. exact E.
   - intros m' e E. apply (cT_B obl (step cfg s o) m); assumption.
   - destruct o; cbn [track_op]; try reflexivity.
-    + destruct (nth_error (m_reqs m) r) as [x|]; [|reflexivity]. destruct (ri_stat x); reflexivity.
+    + destruct (nth_error (m_reqs m) r) as [x|]; [|reflexivity]. destruct (ri_stat x); try reflexivity.
+      destruct (ri_popx x) as [c|]; [|reflexivity]. destruct (nth_error (m_conns m) c) as [y|]; [|reflexivity]. destruct (ci_share y); reflexivity.
     + destruct (holder_conn m r); reflexivity.
 Qed.
 
